@@ -308,6 +308,7 @@ func (ex *Exec) labelReachable(v Value, label string, seen map[*Object]bool) {
 
 // cover: reachability witness (vacuity guard).
 func (ex *Exec) cover(label string) {
+	ex.covers = append(ex.covers, label)
 	if ex.run.covered(label) {
 		return
 	}
